@@ -698,6 +698,25 @@ pub fn run(tier: &str, seed: u64) -> i32 {
     for o in outs {
         absorb(&mut rep, o);
     }
+    // the HTTP append path (body streamed into the content store, then the frame): writers over parallel connections,
+    // SIGKILL of the server in mid-traffic, reopen; every visible frame with a hash must have its content (the kill
+    // cases of C10, counted here for the clause of this property they decide)
+    let http_kills = if t { 60 } else { 8 };
+    let outs = run_cases(http_kills, 8, move |i| crate::c10::run_case(mix(seed, 9500 + i as u64), 2));
+    for r in outs {
+        rep.eval();
+        if let Some(w) = &r.inconclusive {
+            rep.inconclusive(format!("http kill case: {}", w));
+        }
+        rep.count("http_kill_cases", 1);
+        rep.count("http_kill.frames_checked_after_kill", r.counters.get("frames_checked_after_kill").copied().unwrap_or(0));
+        for f in r.findings {
+            if f.props.contains(&"C04") {
+                rep.violation(format!("C04/http-kill/{}", f.signature), json!({"engine": "E5/C10 kill case", "finding": f.detail, "refutes": f.props}));
+            }
+        }
+    }
+    rep.require("frames checked after an HTTP-path kill", rep.counters.get("http_kill.frames_checked_after_kill").copied().unwrap_or(0) > 0);
     rep.require("images recovered", strace_ok && rep.counters.get("images.kill").copied().unwrap_or(0) > 0 || !strace_ok);
     rep.require("fidelity self-check passed", !strace_ok || rep.counters.get("fidelity_self_checks_passed").copied().unwrap_or(0) > 0);
     rep.require("live kills", rep.counters.get("live_sigkills").copied().unwrap_or(0) > 0);
